@@ -624,7 +624,7 @@ func TestVerifC17(t *testing.T) {
 	r.Assume("Ordinary UpsertChannelRuntimeMeta commands are environment input (they may bump epochs and, with a higher fence version, replace a fence by design of the monotonic upsert); rule 4 is judged for migration commands and GC only.")
 	r.Assume("'Can no longer be aborted' is judged on the task row: a task that is post-cutover (phase VerifyNewLeader/VerifyMembership/ClearFence, or Completed, or whose commit/promote this monitor saw applied) must never get Status=Aborted, whether through AbortChannelMigration or through Advance/Claim, which carry an arbitrary status under a CAS guard and are not documented as anything other than a task update. A commit inside a replica replacement (embedded leader transfer) is a sub-step: after its fence is cleared the task returns to AddLearner and may be aborted until its promote.")
 	r.Assume("MinISR<=len(ISR) is judged as preservation by migration steps (ordinary upserts may legally store a shorter ISR); leader in ISR, ISR within replicas, 1<=MinISR<=len(replicas) are judged on every changed meta.")
-	n := r.N(1300, 13000)
+	n := r.N(1000, 20000)
 	base := t.TempDir()
 	// Histories are independent (own DB, own PRNG stream keyed by the case
 	// index); a few workers hide the commit latency of the storage engine.
